@@ -226,6 +226,8 @@ pub fn stream_preludes(_sc: &StreamScenario) -> Vec<StreamScenario> {
                 mode,
                 verify_version: true,
                 explicit_gate: true,
+                flushes: vec![],
+                buffered: false,
                 inbound: mode.pong().to_vec(),
                 reads: vec![],
                 writes: vec![],
